@@ -948,7 +948,7 @@ func pfParser() balancer.ConfigParser { return balancer.Get(pickfirst.Name).(bal
 func TestVerifC34PickFirst(t *testing.T) {
 	vk.Check(t, vk.Unit[plan]{
 		ID: "C34", Name: "pickfirst",
-		Rule: "op lists (<=30/<=250) over pick_first in a bubble: resolver updates with 0..7 addresses from a 9-address pool (IPv4, IPv4-mapped, IPv6, unparsable; duplicates; as Addresses or grouped into Endpoints; shuffle 25% with a plan-driven permutation injected through the package's random hooks; health listener in 25% of cases), subchannel events from the fake addrConn automaton (per-case failure bias 55/82/96%, CONNECTING->IDLE 4%, 0..2 updates queued after Shutdown), virtual-time advances (250ms/100ms/1s), health updates, ResolverError, ExitIdle, picks. non-trivial = some update had >=3 distinct addresses of >=2 families and >=1 pass failed completely",
+		Rule: "op lists (<=30/<=250) over pick_first in a bubble: resolver updates with 0..7 addresses from a 9-address pool (IPv4, IPv4-mapped, IPv6, unparsable; duplicates; as Addresses or grouped into Endpoints; shuffle 25% with a plan-driven permutation injected through the package's random hooks; health listener in 25% of cases), subchannel events from the fake addrConn automaton (per-case failure bias 55/82/96%, CONNECTING->IDLE 4%, 0..2 updates queued after Shutdown), virtual-time advances (250ms/100ms/1s), health updates, ResolverError, ExitIdle, picks. The connection-delay timer runs on the bubble clock through pick_first's TimeAfterFunc seam; 30% of the calls carry a timer relation that applies when a timer is armed: 20% the clock reaches the deadline with the timer function launched but parked until the call has returned (= timer goroutine waiting for the balancer mutex; Stop() during the call cannot stop it), 5% the call happens 1ns before the deadline, 5% the timer runs just before the call; Close() with a launched timer in 1/8 of the cases. non-trivial = (some update had >=3 distinct addresses of >=2 families and >=1 pass failed completely) or a launched timer was cancelled by the call it was parked behind (class timer_fired_during_cancelling_call)",
 		Gen:  genPlan, Run: run,
 	})
 }
